@@ -29,7 +29,10 @@ RULE = (
     "sched: case = (scenario, schedule).  Scenario: max_ind_queue_size in "
     "{0,1,2}; 1-2 callbacks, each ok/raising and with 0-3 extra scheduling "
     "points inside; 1-3 senders x 1-3 indications, each sender belongs to a "
-    "wave; main-thread program from 10 templates (stop after the senders "
+    "wave and is fast or slow (slow = the handler thread waits a virtual "
+    "10 s for the rest of each request, so that by default stop() finds "
+    "the request in flight); main-thread program from 10 templates (stop "
+    "after the senders "
     "finished, stop at any point while they are active, stop+start+second "
     "wave+stop, restart while the first wave is still sending, senders "
     "before start, stop twice, stop before start).  Schedule: list of ints "
@@ -44,8 +47,9 @@ RULE = (
     "Thread start+join/make_server are shims with a scheduling point before "
     "and after every operation (30-200 decision points per run).  "
     "sched_small: every schedule with <= 2 (thorough: 3) non-default "
-    "choices of three smallest scenarios (1 sender x 1 indication x 1 "
-    "callback: stop while active / after, restart), enumerated.  realsock: "
+    "choices of four smallest scenarios (1 sender x 1 indication x 1 "
+    "callback: stop while active / after, restart, slow sender), "
+    "enumerated.  realsock: "
     "the same invariants on the unmodified listener over loopback sockets "
     "with OS scheduling (validates the shim semantics: FIFO, Full, join, "
     "restart).  Non-trivial = at least 2 indications and at least one "
@@ -68,7 +72,12 @@ ASSUMPTIONS = [
     "the stub server follows socketserver semantics: serve_forever polls and "
     "accepts one connection per iteration, shutdown() waits for the loop, "
     "server_close() frees the port, drops unaccepted connections and joins "
-    "the handler threads",
+    "the handler threads it tracks; as in socketserver.ThreadingMixIn a "
+    "handler is tracked only if block_on_close is true and daemon_threads "
+    "false, and a rebind after traffic needs allow_reuse_address - the three "
+    "attributes are read from pywbem._listener.ThreadedHTTPServer at case "
+    "setup.  request_queue_size is not modelled (at most 3 connections are "
+    "pending, below any realistic backlog)",
     "only HTTP (no HTTPS) listeners",
     "from the max_ind_queue_size docstring: an indication arriving at a full "
     "queue is refused, the handler never waits for space",
@@ -118,11 +127,19 @@ def g_scenario(draw):
     cbs = tuple((draw(st.sampled_from(['ok', 'ok', 'raise'])),
                  draw(st.sampled_from([0, 0, 1, 3]))) for _ in range(ncb))
     ns = draw(_ints(1, 3))
-    senders = [(draw(st.sampled_from(waves)), draw(_ints(1, 3)))
+    # slow = the sender transmits its requests slowly (virtual 10 s between
+    # the connection being accepted and the request being complete)
+    senders = [(draw(st.sampled_from(waves)), draw(_ints(1, 3)),
+                draw(st.sampled_from([0, 0, 1])))
                for _ in range(ns)]
-    if len(waves) == 2 and all(w == 0 for w, _ in senders):
-        senders[-1] = (1, senders[-1][1])
+    if len(waves) == 2 and all(sd[0] == 0 for sd in senders):
+        senders[-1] = (1,) + senders[-1][1:]
     return (maxq, cbs, tuple(senders), pname)
+
+
+def _sender(sd):
+    "(wave, n, slow) of a sender recipe; older recipes have no slow flag"
+    return (sd[0], sd[1], sd[2] if len(sd) > 2 else 0)
 
 
 @st.composite
@@ -208,9 +225,12 @@ def run_case(scenario, schedule, max_steps=4000):
     released = [False] * nwaves
     sender_states = []
 
-    def sender_fn(i, wave, n):
+    def sender_fn(i, wave, n, slow):
         def handle_factory(ind, msgid):
             def handle(srv):
+                if slow:
+                    # the handler thread waits for the rest of the request
+                    s.block(lambda: False, 10.0, 'handler.recv')
                 try:
                     # what ListenerRequestHandler.do_POST does after parsing
                     srv.listener._handle_indication(  # noqa
@@ -236,7 +256,8 @@ def run_case(scenario, schedule, max_steps=4000):
 
     def post_state():
         return dict(
-            alive=[t.name for t in shims.listener_threads if not t.done],
+            alive=[t.name for t in shims.listener_threads if not t.done] +
+            ['RequestHandler'] * net.handlers_running(),
             bound=sorted(net.bound),
             queue_exists=listener.ind_queue_exists(),
             http_started=listener.http_started)
@@ -279,10 +300,11 @@ def run_case(scenario, schedule, max_steps=4000):
     shims.install()
     try:
         main = s.spawn(main_fn, 'main', 'main')
-        for i, (wave, n) in enumerate(senders):
+        for i, sd in enumerate(senders):
+            wave, n, slow = _sender(sd)
             sender_states.append(
-                (s.spawn(sender_fn(i, wave, n), 'sender%d' % i, 'sender'),
-                 wave))
+                (s.spawn(sender_fn(i, wave, n, slow), 'sender%d' % i,
+                         'sender'), wave))
         essential = [main] + [t for t, _ in sender_states]
         run.outcome = s.run(lambda: all(t.done for t in essential))
         # a callback thread that survives the program (only after a failure
@@ -488,7 +510,13 @@ def classify(scenario, run):
     classes = ['maxq=%d' % maxq, 'callbacks=%d' % len(cbs),
                'senders=%d' % len(senders), 'program=' + pname,
                'outcome=' + str(run.outcome)]
-    nind = sum(n for _, n in senders)
+    senders = [_sender(sd) for sd in senders]
+    nind = sum(n for _, n, _ in senders)
+    if any(slow for _, _, slow in senders):
+        classes.append('slow-sender')
+    if any(post['alive'].count('RequestHandler')
+           for op, exc, post in run.calls if op == 'stop'):
+        classes.append('handler-running-when-stop-returned')
     classes.append('indications=%s' % (nind if nind < 5 else '5+'))
     if any(k == 'raise' for k, _ in cbs):
         classes.append('callback-raises')
@@ -518,7 +546,8 @@ def classify(scenario, run):
     if s.qstats['queues'] > 1:
         classes.append('restarted')
     if any(run.acks.get('s%d.%d' % (i, j)) == 'success'
-           for i, (w, n) in enumerate(senders) if w == 1 for j in range(n)):
+           for i, (w, n, _) in enumerate(senders) if w == 1
+           for j in range(n)):
         classes.append('success-after-restart')
     npre = len(s.preemptions)
     classes.append('preemptions=%s' % (npre if npre < 3 else
@@ -543,6 +572,7 @@ SMALL = [
     (0, (('ok', 0),), ((0, 1),), 'active'),
     (1, (('ok', 1),), ((0, 1),), 'after'),
     (1, (('raise', 0),), ((0, 1),), 'restart-active-wait'),
+    (0, (('ok', 0),), ((0, 1, 1),), 'active'),      # slow sender
 ]
 
 
@@ -764,7 +794,7 @@ def oracle_real(ctx, example):
 
 
 SUBCHECKS = [
-    Sub('sched', strategy=strategy, oracle=oracle, quick=(16, 700),
+    Sub('sched', strategy=strategy, oracle=oracle, quick=(16, 600),
         thorough=(16, 10000), case_timeout=60, budget=(80, 1500)),
 ]
 _small = Sub('sched_small', enumerate=enumerate_small, quick=(16, 0),
@@ -812,6 +842,13 @@ SENSITIVITY = [
     "sender-order-changed",
     "_stop_indication_delivery: wait loop for the empty queue removed -> "
     "sched/delivery:acknowledged-never-delivered",
+    "ThreadedHTTPServer: daemon_threads = True (seeded change1) -> sched/"
+    "delivery:acknowledged-never-delivered, sched/stop:leaves-thread-behind:"
+    "RequestHandler (same two in sched_small)",
+    "_stop_indication_delivery: wake-up item put(None, block=False) instead "
+    "of the drain wait (seeded change2) -> sched/stop-raises:Full@_listener:"
+    "_stop_indication_delivery:..., sched/delivery:acknowledged-never-"
+    "delivered",
     "_stop_indication_delivery: _callback_thread.join() removed -> sched/"
     "stop:leaves-thread-behind:CallbackThread, sched/delivery:sender-order-"
     "changed (two consumers after a restart)",
